@@ -133,8 +133,13 @@ def handler(c):
             broker = StubBroker(c['equity'], c['fee'], held=c['held'])
             sizer = mk_sizer(c, broker)
             uni = StaticUniverse(list(c['universe']))
-            alpha = FixedSignalsAlphaModel(dict((a, w) for a, w in c['alpha']))
-            pcm = PortfolioConstructionModel(broker, 'p', uni, sizer, FixedWeightPortfolioOptimiser(), alpha_model=alpha)
+            if c.get('alpha_dynamic'):
+                # the universe-driven alpha model over a dynamic universe of its own (the construction model's universe is wider)
+                alpha = SingleSignalAlphaModel(mk_universe(['dynamic', c['alpha_dynamic']]), signal=c['signal'])
+            else:
+                alpha = FixedSignalsAlphaModel(dict((a, w) for a, w in c['alpha']))
+            opt = EqualWeightPortfolioOptimiser(scale=c['opt'][1]) if c.get('opt') else FixedWeightPortfolioOptimiser()
+            pcm = PortfolioConstructionModel(broker, 'p', uni, sizer, opt, alpha_model=alpha)
             stats = {'target_allocations': []}
             orders = pcm(ts(c.get('t', 0)), stats=stats)
             row = stats['target_allocations'][-1]
